@@ -356,7 +356,10 @@ def t_unix(it, st, args, fname):
 @I.reg('(time.Time).Unix')
 def t_time_unix(it, st, args, fname):
     if is_ns(args[0]):
-        raise Unsupported('Unix() of a clock reading (division by 1e9)')
+        tot = time_parts(args[0])[0]
+        if is_sym(tot):
+            raise Unsupported('Unix() of a symbolic clock reading (division by 1e9)')
+        return ret(st, mask(tosigned(tot, 64) // 1000000000, 64))
     return ret(st, time_parts(args[0])[0])
 
 
@@ -455,6 +458,9 @@ def t_sleep(it, st, args, fname):
 def t_add(it, st, args, fname):
     s, n = time_parts(args[0])
     d = args[1]
+    if is_ns(args[0]):
+        # a clock reading: `ext` holds total nanoseconds
+        return ret(st, mk_time_ns(simp_i(add64(s, d))))
     if not is_sym(d):
         dd = tosigned(d, 64)
         ds, dn = divmod(dd, 1000000000)
@@ -711,3 +717,31 @@ def time_after(it, st, args, fname):
     """no passing of time inside an explored step: the timer channel never becomes ready"""
     it.ctx.assumptions.add('time.After never fires within an explored step (no passing of time)')
     return ret(st, Ptr(it.new_obj(st, ('CH', 1, (), False), ('CH', 'time.Time'))))
+
+
+# ------------------------------------------------------------------ HMAC as an ideal MAC
+# hmac.New(h, key): a hash object whose transcript starts with a domain separator and the key, i.e.
+# mac(key, data) = H("HMAC" | len(key) | key | data) with the ideal H.  (Real HMAC differs bit for bit;
+# nothing depending on MAC bytes may be observed for native comparison.)
+
+@I.reg('crypto/hmac.New')
+def hmac_new(it, st, args, fname):
+    key = it.slice_values(st, args[1], 'hmac key') if args[1].obj is not None else []
+    pre = tuple(b'HMAC') + (len(key) & 0xff, (len(key) >> 8) & 0xff) + tuple(key)
+    oid = it.new_obj(st, ('HASH', 'sha256', pre), ('OPAQUE',))
+    it.ctx.assumptions.add('HMAC-SHA256 is an ideal MAC: an uninterpreted function of key and message')
+    return ret(st, Iface('$hash', Ptr(oid)))
+
+
+@I.reg('crypto/subtle.ConstantTimeCompare')
+def subtle_ctc(it, st, args, fname):
+    a = it.slice_values(st, args[0], 'ConstantTimeCompare') if args[0].obj is not None else []
+    b = it.slice_values(st, args[1], 'ConstantTimeCompare') if args[1].obj is not None else []
+    if len(a) != len(b):
+        return ret(st, 0)
+    eq = True
+    for x, y in zip(a, b):
+        eq = And(eq, eqv8(x, y))
+    if eq is True or eq is False:
+        return ret(st, 1 if eq else 0)
+    return ret(st, z3.If(eq, z3.BitVecVal(1, 64), z3.BitVecVal(0, 64)))
